@@ -29,12 +29,14 @@ structure Seen where
   ts : Int
   onTime : Bool      -- not late on arrival: ts ≥ (largest valid ts seen so far, itself included) − ooo
   corrupt : Bool     -- beyond the far-future guard
+  wmAtArrival : Option Int := none   -- the watermark right after this arrival
   deriving Repr
 
 structure Scan where
   seen : List Seen := []
   maxTs : Option Int := none          -- largest valid timestamp seen so far
-  firsts : List (Int × Int × List Nat) := []   -- first firings so far (start, stop, ids), in order
+  firsts : List (Int × Int × List Nat) := []   -- delivered intervals so far (start, stop, current ids), in order
+  expect : Option (Int × Int × Nat) := none    -- a late row inside the allowance of a delivered interval: the next event must be its re-delivery
   err : Option String := none
   deriving Repr
 
@@ -48,10 +50,11 @@ def fail (s : Scan) (m : String) : Scan := if s.err.isSome then s else { s with 
 
 def stepArr (c : Cfg) (s : Scan) (id : Nat) (ts : Int) : Scan :=
   if c.now + c.ooo + c.slack < ts then
-    { s with seen := s.seen ++ [{ id := id, ts := ts, onTime := true, corrupt := true }] }
+    { s with seen := s.seen ++ [{ id := id, ts := ts, onTime := true, corrupt := true, wmAtArrival := s.maxTs.map (· - c.ooo) }] }
   else
     { s with maxTs := some (maxOpt s.maxTs ts),
-             seen := s.seen ++ [{ id := id, ts := ts, onTime := decide (maxOpt s.maxTs ts - c.ooo ≤ ts), corrupt := false }] }
+             seen := s.seen ++ [{ id := id, ts := ts, onTime := decide (maxOpt s.maxTs ts - c.ooo ≤ ts), corrupt := false,
+                                  wmAtArrival := some (maxOpt s.maxTs ts - c.ooo) }] }
 
 def lookup (s : Scan) (id : Nat) : Option Seen := s.seen.find? (·.id = id)
 
@@ -81,21 +84,58 @@ def checkFirst (c : Cfg) (s : Scan) (start stop : Int) (ids : List Nat) : Scan :
             | none => s7
   { s8 with firsts := s8.firsts ++ [(start, stop, ids)] }
 
-/-- a late re-delivery: same interval as an earlier first firing, inside the allowance,
-contents = everything delivered for that interval before plus late rows of that interval -/
+/-- a late re-delivery: same interval as an earlier delivery, contents = what was delivered for
+that interval before plus exactly one new row, which is late, lies in the interval, and arrived
+while the interval was still inside the allowance (watermark at its arrival < end + lateness) -/
 def checkLate (c : Cfg) (s : Scan) (start stop : Int) (ids : List Nat) : Scan :=
   let s1 := if 0 < c.lateness then s else fail s "late-update-without-allowance"
-  let s2 := if s.firsts.any (fun f => f.1 = start && f.2.1 = stop) then s1 else fail s1 "late-update-of-unfired-window"
-  let s3 := if ids.all (fun i => match lookup s i with
-              | some r => decide (start ≤ r.ts) && decide (r.ts < stop)
-              | none => false) then s2 else fail s2 "late-row-outside-its-interval"
-  s3
+  match s.firsts.find? (fun f => f.1 = start && f.2.1 = stop) with
+  | none => fail s1 "late-update-of-unfired-window"
+  | some f =>
+    let prev := f.2.2
+    let s2 := if ids.take prev.length = prev && ids.length = prev.length + 1 then s1 else fail s1 "late-update-not-previous-plus-one"
+    let s3 := match ids.getLast? with
+      | some i => match lookup s i with
+        | some r =>
+          let a := if start ≤ r.ts ∧ r.ts < stop then s2 else fail s2 "late-row-outside-its-interval"
+          let b := if !r.onTime then a else fail a "late-update-by-on-time-row"
+          match r.wmAtArrival with
+          | some w => if w < stop + c.lateness then b else fail b "late-update-after-allowance"
+          | none => b
+        | none => fail s2 "late-update-unknown-row"
+      | none => s2
+    { s3 with firsts := s3.firsts.map (fun g => if g.1 = start && g.2.1 = stop then (start, stop, ids) else g) }
 
-def step (c : Cfg) (s : Scan) : Ev → Scan
+/-- a late row that falls in an already delivered interval still inside the allowance must be
+re-delivered at once -/
+def expectation (c : Cfg) (s : Scan) (id : Nat) (ts : Int) : Option (Int × Int × Nat) :=
+  if c.lateness ≤ 0 then none else
+  match s.seen.getLast? with
+  | some r =>
+    if r.id = id ∧ !r.onTime ∧ !r.corrupt then
+      match s.firsts.find? (fun f => decide (f.1 ≤ ts) && decide (ts < f.2.1)), r.wmAtArrival with
+      | some f, some w => if w < f.2.1 + c.lateness then some (f.1, f.2.1, id) else none
+      | _, _ => none
+    else none
+  | none => none
+
+def stepCore (c : Cfg) (s : Scan) : Ev → Scan
   | .arr _ none => s
-  | .arr id (some ts) => stepArr c s id ts
+  | .arr id (some ts) =>
+    let s1 := stepArr c s id ts
+    { s1 with expect := expectation c s1 id ts }
   | .emit false a b ids => checkFirst c s a b ids
   | .emit true a b ids => checkLate c s a b ids
+
+def step (c : Cfg) (s : Scan) (e : Ev) : Scan :=
+  match s.expect with
+  | none => stepCore c s e
+  | some (a, b, id) =>
+    let s0 := { s with expect := none }
+    match e with
+    | .emit true a' b' ids => if a' = a ∧ b' = b ∧ ids.contains id then stepCore c s0 e
+                              else stepCore c (fail s0 "late-row-inside-allowance-not-redelivered") e
+    | _ => stepCore c (fail s0 "late-row-inside-allowance-not-redelivered") e
 
 def scan (c : Cfg) (evs : List Ev) : Scan := evs.foldl (step c) {}
 
@@ -127,8 +167,9 @@ def complete (c : Cfg) (s : Scan) : Option String :=
 /-- the whole oracle: `none` = holds -/
 def holds (c : Cfg) (evs : List Ev) (flushed : Bool) : Option String :=
   let s := scan c evs
-  match s.err with
-  | some e => some e
-  | none => if flushed then complete c s else none
+  match s.err, s.expect with
+  | some e, _ => some e
+  | none, some _ => some "late-row-inside-allowance-not-redelivered"
+  | none, none => if flushed then complete c s else none
 
 end WinSpec
